@@ -345,6 +345,31 @@ def handleCls (cls : String) (j : Json) : E Out := do
     let letters := present.eraseDups
     let sz := fun c => ((sizes.find? fun kv => kv.1 == c).map Prod.snd).getD 1
     pure (twoModes (einsum letters sz ops xs.toList os.toList))
+  | "DiagonalOperator" =>
+    -- {"doms":…, "spaces": null | [..], "ddoms": sizes of the diagonal's sub-domains, "d": values, "dinv": 1/values}
+    let doms ← parseDoms j
+    let spo ← optSpaces j "spaces"
+    let d ← req ((field? j "d").bind cqList?)
+    let dinv ← req ((field? j "dinv").bind cqList?)
+    let dsz ← req (fNatList? j "dsizes")
+    let sizes := doms.map SubDom.size
+    let sp ← match spo with
+      | none => if dsz != sizes then throw "ValueError" else pure (List.range doms.length)
+      | some _ => do
+        let sp ← parseSpacesI spo doms.length
+        if sp.length != dsz.length then throw "ValueError"
+        if (sp.zip dsz).any (fun p => sizes.getD p.1 0 != p.2) then throw "ValueError"
+        pure sp
+    let M : Coo CQ := diagonalOp sizes sp d
+    let Mi : Coo CQ := diagonalOp sizes sp dinv
+    pure (fourModes M Mi)
+  | "ScalingOperator" =>
+    let n ← req (fNat? j "n")
+    let f ← req ((field? j "f").bind getCQ?)
+    let fi ← req ((field? j "finv").bind getCQ?)
+    let M : Coo CQ := diag n fun _ => f
+    let Mi : Coo CQ := diag n fun _ => fi
+    pure (fourModes M Mi)
   | "Reject" => throw ((fStr? j "kind").getD "bad-args")
   | "NullOperator" =>
     let r ← req (fNat? j "rows")
